@@ -24,7 +24,8 @@ def make_curve(n_app=300, n_ret=None, depth=1e-6, z0=3e-6,
                model_key="hertz_para", params=None, k=0.05, noise=0.,
                tilt=0., drift=0., seed=0, zoff=1.25e-6, baseline=0.,
                lag=0, spikes=0, path="/synthetic/curve.h5", enum=0,
-               with_tip=False, extra_meta=None, cls=None, perturb=None):
+               with_tip=False, extra_meta=None, cls=None, perturb=None,
+               drop_meta=()):
     """Return a nanite.Indentation with an approach and a retract segment.
 
     The tip position runs from +z0 (far away) down to -depth (indented) and
@@ -71,6 +72,8 @@ def make_curve(n_app=300, n_ret=None, depth=1e-6, z0=3e-6,
             "imaging mode": "force-distance", "point count": int(tip.size)}
     if extra_meta:
         meta.update(extra_meta)
+    for key in drop_meta:
+        meta.pop(key, None)
     return (cls or Indentation)(data, meta)
 
 
